@@ -153,6 +153,32 @@ func RuleDAtomic(c *core.Ctx) {
 			n++
 			key := core.FuncName(fn) + ":atomic.WriteFile"
 			path, rd := call.Call.Args[0], core.Strip(call.Call.Args[1])
+			// the data comes out of a helper of the module that is given the same path and
+			// returns (buffer, error): the file is replaced only after the helper succeeded
+			// (what the helper does with the errors of the parser is the subject of K-errors)
+			if ex, ok := rd.(*ssa.Extract); ok {
+				if hc, ok := ex.Tuple.(*ssa.Call); ok {
+					h := hc.Call.StaticCallee()
+					takesPath := false
+					for _, a := range hc.Call.Args {
+						if p.SameExpr(a, path) || sameDeref(p, a, path) {
+							takesPath = true
+						}
+					}
+					succeeded := false
+					for _, e := range errValues(hc) {
+						for _, sb := range core.ErrSuccessBlocks(e) {
+							if sb == call.Block() || sb.Dominates(call.Block()) {
+								succeeded = true
+							}
+						}
+					}
+					if h != nil && p.InModule(h) && takesPath && succeeded {
+						c.Ob(rule, key, call.Pos(), core.FuncName(fn), core.Discharged, "the data is the result of "+core.FuncName(h)+"(path), and the file is replaced only on the success of that call")
+						return
+					}
+				}
+			}
 			buf, isAlloc := rd.(*ssa.Alloc)
 			if !isAlloc || bufT == nil || !isNamed(buf.Type().Underlying().(*types.Pointer).Elem(), bufT) {
 				c.Ob(rule, key, call.Pos(), core.FuncName(fn), core.Violated, "the data handed to atomic.WriteFile is not a local bytes.Buffer that was filled before: rendering can fail after the file has been replaced")
@@ -490,6 +516,32 @@ func RuleDEachFile(c *core.Ctx) {
 					if callee != nil && strings.HasPrefix(core.PkgPathOf(callee), "github.com/sourcegraph/conc/iter") {
 						// and the results are combined, not truncated
 						combined := false
+						// iter.ForEach / ForEachIdx return nothing: the literal keeps each file's
+						// error in its own slot of a slice that is combined afterwards
+						if strings.HasPrefix(core.BaseName(callee), "ForEach") {
+							if lit := core.FuncValue(a); lit != nil {
+								slot := false
+								core.EachInstr(lit, func(li ssa.Instruction) {
+									st, ok := li.(*ssa.Store)
+									if !ok {
+										return
+									}
+									if _, isIdx := st.Addr.(*ssa.IndexAddr); !isIdx {
+										return
+									}
+									if pc, ok := core.Strip(st.Val).(*ssa.Call); ok && perFiles[pc.Call.StaticCallee()] {
+										slot = true
+									}
+								})
+								later := false
+								core.EachInstr(fn, func(fi ssa.Instruction) {
+									if cl, ok := fi.(*ssa.Call); ok && cl.Call.StaticCallee() != nil && strings.Contains(cl.Call.StaticCallee().String(), "multierr.Combine") && core.Dominates(call, cl) {
+										later = true
+									}
+								})
+								combined = slot && later
+							}
+						}
 						if call.Referrers() != nil {
 							for _, r := range *call.Referrers() {
 								if cl, ok := r.(*ssa.Call); ok && cl.Call.StaticCallee() != nil && strings.Contains(cl.Call.StaticCallee().String(), "multierr.Combine") {
